@@ -7,13 +7,18 @@
            fresh and options preserved — fails on the implementation's own output).
   `oracleFixes` selects the model variant: the faithful model of the current tree; switch the
   individual flags to `true` when the corresponding repair lands in /repo.
+
+  Targets.  `newtgt:<name>:<kind>:<e>.<t>/<e>.<t>/…` (or `-` for no shapes) creates the target OBJECT of that
+  name, `tadd:<shape>:<edges>:<tracked>` adds to the index of the current target, `tset:<ii>:<bf>` configures its
+  inner query.  A `call:<kind>:<name>:…` whose name is the current target object runs the model's `tcall` (the
+  object's state matters); any other name is a stateless target, `call` of the model, as before.
 -/
 import Oracle.Proto
 import S2.History
 namespace Oracle.C13
 open Oracle S2.History
 
-def oracleFixes : Fixes := ⟨true, true, true, true⟩
+def oracleFixes : Fixes := Fixes.tree
 
 def parseLim? (s : String) : Option Lim :=
   if s == "inf" then some .infinity
@@ -32,8 +37,23 @@ def parseKind? (k : String) (l : Option Nat) : Option QKind :=
   | "consge", some l => some (.isConsGE l)
   | _, _ => none
 
-def parseOp? (t : String) : Option Op :=
+def parseTKind? (s : String) : Option TKind :=
+  match s with | "point" => some .point | "edge" => some .edge | "cell" => some .cell | "index" => some .index | _ => none
+
+def parseShape? (s : String) : Option Shape :=
+  match s.splitOn "." with
+  | [e, t] => do let e ← e.toNat?; let t ← parseB? t; pure ⟨e, t⟩
+  | _ => none
+
+def parseShapes? (s : String) : Option (List Shape) :=
+  if s == "-" then some [] else (s.splitOn "/").mapM parseShape?
+
+/-- `cur` = name of the current target object -/
+def parseOp? (cur : Option String) (t : String) : Option Op :=
   match t.splitOn ":" with
+  | ["newtgt", _, k, shapes] => do let k ← parseTKind? k; let sh ← parseShapes? shapes; pure (.newTarget k sh)
+  | ["tadd", _, e, tr] => do let e ← e.toNat?; let tr ← parseB? tr; pure (.tadd ⟨e, tr⟩)
+  | ["tset", ii, bf] => do let ii ← parseB? ii; let bf ← parseB? bf; pure (.tset ii bf)
   | ["add", _, e, tr] => do let e ← e.toNat?; let tr ← parseB? tr; pure (.add ⟨e, tr⟩)
   | ["build"] => some .build
   | ["reset"] => some .reset
@@ -48,9 +68,23 @@ def parseOp? (t : String) : Option Op :=
     let mr ← mr.toNat?; let lim ← parseLim? lim; let err ← parseLim? err
     let incl ← parseB? incl; let brute ← parseB? brute
     pure (.newEQ ⟨mr, lim, err, incl, brute⟩)
-  | ["call", k, _, thr] => do let thr ← thr.toNat?; let k ← parseKind? k none; pure (.call k thr)
-  | ["call", k, _, thr, l] => do let thr ← thr.toNat?; let l ← l.toNat?; let k ← parseKind? k (some l); pure (.call k thr)
+  | ["call", k, tn, thr] => do
+    let thr ← thr.toNat?; let k ← parseKind? k none
+    pure (if cur == some tn then .tcall k else .call k thr)
+  | ["call", k, tn, thr, l] => do
+    let thr ← thr.toNat?; let l ← l.toNat?; let k ← parseKind? k (some l)
+    pure (if cur == some tn then .tcall k else .call k thr)
   | _ => none
+
+def parseOps? (cur : Option String) : List String → Option (List Op)
+  | [] => some []
+  | t :: r => do
+    let op ← parseOp? cur t
+    let cur' := match t.splitOn ":" with
+      | "newtgt" :: n :: _ => some n
+      | _ => cur
+    let ops ← parseOps? cur' r
+    pure (op :: ops)
 
 def parseKindP? (s : String) : Option PolyKind :=
   match s with | "empty" => some .empty | "full" => some .full | "normal" => some .normal | _ => none
@@ -107,7 +141,7 @@ def handle (op : String) (args res : List String) : Option String :=
   match op, args with
   | "c13", [lv, pk, pv, opsS] => do
     let lv ← lv.toNat?; let pk ← parseKindP? pk; let pv ← pv.toNat?
-    let ops ← (opsS.splitOn ",").mapM parseOp?
+    let ops ← parseOps? none (opsS.splitOn ",")
     let s0 := State.init oracleFixes lv false pk pv
     let outs := (runV oracleFixes s0 ops).2
     let sps := (runSpec (abs s0) ops).2
